@@ -79,8 +79,9 @@ def sig_name(rc):
 def confirm(binary, replay_args, env=None):
     r1 = run(binary, replay_args, timeout=300, env=env)
     r2 = run(binary, replay_args, timeout=300, env=env)
-    v1 = sorted(l for l in r1[1].splitlines() if l.startswith("VIOL\t"))
-    v2 = sorted(l for l in r2[1].splitlines() if l.startswith("VIOL\t"))
+    # compare what is violated, not incidental text (addresses in details)
+    v1 = sorted(l.split("\t")[1] if "\t" in l else l for l in r1[1].splitlines() if l.startswith("VIOL\t"))
+    v2 = sorted(l.split("\t")[1] if "\t" in l else l for l in r2[1].splitlines() if l.startswith("VIOL\t"))
     if r1[0] != 0 and r2[0] != 0 and r1[0] == r2[0] and v1 == v2 and r1[0] != 2:
         return "confirmed", (r1[1] + r1[2])[-1500:]
     if r1[0] == 0 and r2[0] == 0:
